@@ -235,7 +235,7 @@ PROPS = {
         module="OrbitModel.Properties.C16",
         theorems=["Orbit.C16.write_path_order_tied_to_go_text", "Orbit.C16.received_is_prefix_of_emitted", "Orbit.C16.nothing_lost_while_alive",
                   "Orbit.C16.slow_reader_eventually_gets_everything", "Orbit.C16.write_event_not_ahead_of_state",
-                  "Orbit.C16.pinned_tree_reorders", "Orbit.C16.unsubscribing_never_wedges_the_bus", "Orbit.C16.the_wedged_state_is_reachable", "Orbit.C16.forwarder_drains_while_it_closes_tied_to_go_text"],
+                  "Orbit.C16.pinned_tree_reorders", "Orbit.C16.unsubscribing_never_wedges_the_bus", "Orbit.C16.the_wedged_state_is_reachable", "Orbit.C16.forwarder_drains_while_it_closes_tied_to_go_text", "Orbit.C16.live_caller_gets_a_live_global_channel", "Orbit.C16.second_global_caller_got_the_closed_channel_before_the_fix", "Orbit.C16.legacy_api_listens_on_the_stores_bus_tied_to_go_text"],
         families=[("events", 80, 2500, 8), ("forge", 40, 1000, 10)],
         corr_fields={"values", "idx"},
         nontrivial=lambda lines: sum(1 for l in lines if l.startswith("event ")) >= 2 or sum(1 for l in lines if l.startswith("eread ")) >= 3,
@@ -297,7 +297,7 @@ MANIFEST_TEXT = {
         note="Partial: for several cached heads the count/order/newest statement is checked on the implementation and on decide-checked instances, not proved in general; the bounded fetcher is a parameter with a stated contract.",
         technique="Lean 4 proof (trim/Join size lemmas, chain induction) with differential correspondence over boundary limits"),
     "C16": dict(
-        text="Kernel-checked theorems over the two-goroutine transition system of the legacy event channel, for every capacity and EVERY interleaving: what a subscriber has received is always a prefix of what was emitted (no reordering, duplication or gap), nothing is lost while its context lives, and a reader that keeps reading gets everything; the write path updates the view before it acknowledges/emits. The pinned reordering is a decide-checked witness replayed on the real emitter with a hook before the fix: commit. The harness queries stores from inside bus handlers and drives the real emitter with slow readers and a held drainer. A legacy subscriber that unsubscribes never wedges the bus: from the state its forwarder used to leave behind (subscription full, emitter blocked inside emit, nobody reading) Close gets through for every capacity and backlog, while before the fix: commit F38 that state was a deadlock no action ever left (both kernel-checked on a model of the bus lock; reproduced on the real emitter by holding the forwarder at a hook point until the emitter waits: about half of the trials wedged); the drain-while-closing order is regenerated from the Go text on every run.",
+        text="Kernel-checked theorems over the two-goroutine transition system of the legacy event channel, for every capacity and EVERY interleaving: what a subscriber has received is always a prefix of what was emitted (no reordering, duplication or gap), nothing is lost while its context lives, and a reader that keeps reading gets everything; the write path updates the view before it acknowledges/emits. The pinned reordering is a decide-checked witness replayed on the real emitter with a hook before the fix: commit. The harness queries stores from inside bus handlers and drives the real emitter with slow readers and a held drainer. A legacy subscriber that unsubscribes never wedges the bus: from the state its forwarder used to leave behind (subscription full, emitter blocked inside emit, nobody reading) Close gets through for every capacity and backlog, while before the fix: commit F38 that state was a deadlock no action ever left (both kernel-checked on a model of the bus lock; reproduced on the real emitter by holding the forwarder at a hook point until the emitter waits: about half of the trials wedged); the drain-while-closing order is regenerated from the Go text on every run. The legacy GlobalChannel gives a caller with a live context a live channel whatever callers came and went before (proved on a small model; finding F41, fix: commit: the first caller's channel was handed out for ever, closed; replayed on the real emitter), and a store built with the default bus tells its legacy emitter about it (finding F42, fix: commit; the unconditional SetBus is regenerated from the Go text on every run; replayed on a store built with its public constructor).",
         note="Partial: the libp2p eventbus (FIFO per subscriber, blocking emit) and Go's scheduling are assumed; goroutine steps are atomic under the emitter mutex.",
         technique="Lean 4 proof (pipeline invariant delivered ++ in-transit = emitted over all schedules) with hook-driven differential harness"),
     "C17": dict(
